@@ -293,6 +293,15 @@ def _shard_entry(args):
     modname, cfg = args
     sys.path[:0] = [p for p in (REPO, VERIF) if p not in sys.path]
     try:
+        # a runaway allocation (e.g. a lexer that never consumes its input) must end in a
+        # MemoryError inside the case, not in the kernel killing the worker
+        import resource
+
+        lim = int(os.environ.get("VERIF_AS_LIMIT_GB", "3")) << 30
+        resource.setrlimit(resource.RLIMIT_AS, (lim, lim))
+    except Exception:
+        pass
+    try:
         import importlib
 
         mod = importlib.import_module(modname)
